@@ -300,13 +300,13 @@ func FOuts(p *Prog, cfg *FCfg, stage, phase string, args interface{}, outs []Fie
 }
 
 // FSplit computes the chunk definitions returned by the split phase.
-func FSplit(p *Prog, cfg *FCfg, st *StageDef, args interface{}) []map[string]interface{} {
+func FSplit(p *Prog, cfg *FCfg, st *StageDef, args interface{}, files FileMaker) []map[string]interface{} {
 	seed := fmt.Sprintf("%s|%s|split|%x", cfg.Salt, st.Name, hash64(Canon(args)))
 	n := int(hash64(seed, "n") % uint64(cfg.MaxChunks+1))
 	chunks := make([]map[string]interface{}, n)
 	for i := 0; i < n; i++ {
 		g := &genCtx{p: p, cfg: &FCfg{MaxLen: cfg.MaxLen, Salt: cfg.Salt}, seed: seed + "|" + strconv.Itoa(i),
-			files: func(name, content string) string { return "nofile:" + name }}
+			files: func(name, content string) string { return files(fmt.Sprintf("chunk%d_%s", i, name), content) }}
 		c := make(map[string]interface{}, len(st.ChunkIns))
 		for _, f := range st.ChunkIns {
 			c[f.Name] = g.value(f.T, f.Name)
